@@ -23,88 +23,105 @@ using namespace dv;
 namespace FC = Dune::FloatCmp;
 
 // ------------------------------------------------------------------------------------------------
-// 8-bit IEEE-like minifloat (1 sign, 4 exponent, 3 mantissa bits, bias 7).  The value is kept as the double it
-// denotes; every operation is the exact double operation (all of them are exact for these operands) followed by one
-// rounding to the format (nearest, ties to even, overflow to infinity).
+// 8-bit IEEE-like minifloats: 1 sign, EB exponent, MB mantissa bits (EB + MB = 7), bias 2^(EB-1) - 1.  The value is kept as
+// the double it denotes; every operation is the exact double operation (all of them are exact for these operands)
+// followed by one rounding to the format (nearest, ties to even, overflow to infinity).
+//   MF8  = <4,3>: largest number 240, non-integers below 8, smallest subnormal 2^-9
+//   MF8B = <5,2>: largest number 57344 (so that T(255), the largest unsigned char, is finite), smallest subnormal 2^-16
 // ------------------------------------------------------------------------------------------------
 namespace mf {
-inline double rnd(double x) {
-  if (std::isnan(x) || std::isinf(x) || x == 0) return x;
-  int ex;
-  std::frexp(std::fabs(x), &ex);
-  int E = ex - 1;
-  if (E < -6) E = -6;
-  int u = E - 3;
-  double q = std::ldexp(std::fabs(x), -u);
-  double N = std::nearbyint(q);  // default rounding mode: to nearest, ties to even
-  double mag = std::ldexp(N, u);
-  if (mag > 240.0) mag = std::numeric_limits<double>::infinity();
-  return std::copysign(mag, x);
-}
-// MF8 is a complete arithmetic type (construction from / explicit conversion to every arithmetic type, + - * /,
+template <int EB, int MB> struct F {
+  static constexpr int bias = (1 << (EB - 1)) - 1, emin = 1 - bias, emax = bias, efield = (1 << EB) - 1;
+  static double maxv() { return std::ldexp(2.0 - std::ldexp(1.0, -MB), emax); }
+  static double rnd(double x) {
+    if (std::isnan(x) || std::isinf(x) || x == 0) return x;
+    int ex;
+    std::frexp(std::fabs(x), &ex);
+    int E = ex - 1;
+    if (E < emin) E = emin;
+    int u = E - MB;
+    double q = std::ldexp(std::fabs(x), -u);
+    double N = std::nearbyint(q);  // default rounding mode: to nearest, ties to even
+    double mag = std::ldexp(N, u);
+    if (mag > maxv()) mag = std::numeric_limits<double>::infinity();
+    return std::copysign(mag, x);
+  }
+  static double value(unsigned code) {
+    bool neg = (code >> 7) & 1;
+    unsigned e = (code >> MB) & (unsigned)efield, m = code & ((1u << MB) - 1);
+    double mag;
+    if (e == (unsigned)efield) mag = m == 0 ? std::numeric_limits<double>::infinity() : std::numeric_limits<double>::quiet_NaN();
+    else if (e == 0) mag = std::ldexp((double)m, emin - MB);
+    else mag = std::ldexp((double)((1 << MB) + m), (int)e - bias - MB);
+    return neg ? -mag : mag;
+  }
+  static bool finiteCode(unsigned c) { return c < 256 && ((c >> MB) & (unsigned)efield) != (unsigned)efield; }
+  static constexpr int nFinite = 2 * (efield << MB);                 // number of finite codes (with both zeros)
+  static int finiteIdx(long i) { return (int)(i < nFinite / 2 ? i : i + 128 - nFinite / 2); }   // i in [0,nFinite): the finite codes in order
+};
+inline double rnd(double x) { return F<4, 3>::rnd(x); }
+// MFx is a complete arithmetic type (construction from / explicit conversion to every arithmetic type, + - * /,
 // compound assignment, comparisons, abs, classification, std::numeric_limits) so that it keeps compiling whatever
 // operations of T float_cmp.cc uses: a harness that no longer compiles cannot produce a failing input.
-struct MF8 {
+template <int EB, int MB> struct MFx {
+  using Fm = F<EB, MB>;
   double v;
-  constexpr MF8() : v(0) {}
+  constexpr MFx() : v(0) {}
   template <class A, std::enable_if_t<std::is_arithmetic<A>::value, int> = 0>
-  MF8(A a) : v(rnd((double)a)) {}
+  MFx(A a) : v(Fm::rnd((double)a)) {}
   struct Raw {};
-  constexpr MF8(double d, Raw) : v(d) {}
+  constexpr MFx(double d, Raw) : v(d) {}
   template <class A, std::enable_if_t<std::is_arithmetic<A>::value, int> = 0>
   explicit operator A() const { return (A)v; }
+  // hidden friends: found by ADL, and an arithmetic operand on the other side converts implicitly (`epsilon() * 8.`)
+  friend MFx operator-(MFx a, MFx b) { return MFx(Fm::rnd(a.v - b.v), Raw{}); }
+  friend MFx operator+(MFx a, MFx b) { return MFx(Fm::rnd(a.v + b.v), Raw{}); }
+  friend MFx operator-(MFx a) { return MFx(-a.v, Raw{}); }
+  friend MFx operator+(MFx a) { return a; }
+  friend MFx operator*(MFx a, MFx b) { return MFx(Fm::rnd(a.v * b.v), Raw{}); }
+  friend MFx operator/(MFx a, MFx b) { return MFx(Fm::rnd(a.v / b.v), Raw{}); }
+  friend MFx& operator+=(MFx& a, MFx b) { return a = a + b; }
+  friend MFx& operator-=(MFx& a, MFx b) { return a = a - b; }
+  friend MFx& operator*=(MFx& a, MFx b) { return a = a * b; }
+  friend MFx& operator/=(MFx& a, MFx b) { return a = a / b; }
+  friend bool operator<(MFx a, MFx b) { return a.v < b.v; }
+  friend bool operator>(MFx a, MFx b) { return a.v > b.v; }
+  friend bool operator<=(MFx a, MFx b) { return a.v <= b.v; }
+  friend bool operator>=(MFx a, MFx b) { return a.v >= b.v; }
+  friend bool operator==(MFx a, MFx b) { return a.v == b.v; }
+  friend bool operator!=(MFx a, MFx b) { return a.v != b.v; }
+  friend MFx abs(MFx a) { return MFx(std::fabs(a.v), Raw{}); }
+  friend MFx fabs(MFx a) { return abs(a); }
+  friend bool isnan(MFx a) { return std::isnan(a.v); }
+  friend bool isinf(MFx a) { return std::isinf(a.v); }
+  friend bool isfinite(MFx a) { return std::isfinite(a.v); }
+  friend std::ostream& operator<<(std::ostream& os, MFx a) { return os << a.v; }
 };
-inline MF8 operator-(MF8 a, MF8 b) { return MF8(rnd(a.v - b.v), MF8::Raw{}); }
-inline MF8 operator+(MF8 a, MF8 b) { return MF8(rnd(a.v + b.v), MF8::Raw{}); }
-inline MF8 operator-(MF8 a) { return MF8(-a.v, MF8::Raw{}); }
-inline MF8 operator+(MF8 a) { return a; }
-inline MF8 operator*(MF8 a, MF8 b) { return MF8(rnd(a.v * b.v), MF8::Raw{}); }
-inline MF8 operator/(MF8 a, MF8 b) { return MF8(rnd(a.v / b.v), MF8::Raw{}); }
-inline MF8& operator+=(MF8& a, MF8 b) { return a = a + b; }
-inline MF8& operator-=(MF8& a, MF8 b) { return a = a - b; }
-inline MF8& operator*=(MF8& a, MF8 b) { return a = a * b; }
-inline MF8& operator/=(MF8& a, MF8 b) { return a = a / b; }
-inline bool operator<(MF8 a, MF8 b) { return a.v < b.v; }
-inline bool operator>(MF8 a, MF8 b) { return a.v > b.v; }
-inline bool operator<=(MF8 a, MF8 b) { return a.v <= b.v; }
-inline bool operator>=(MF8 a, MF8 b) { return a.v >= b.v; }
-inline bool operator==(MF8 a, MF8 b) { return a.v == b.v; }
-inline bool operator!=(MF8 a, MF8 b) { return a.v != b.v; }
-inline MF8 abs(MF8 a) { return MF8(std::fabs(a.v), MF8::Raw{}); }
-inline MF8 fabs(MF8 a) { return abs(a); }
-inline bool isnan(MF8 a) { return std::isnan(a.v); }
-inline bool isinf(MF8 a) { return std::isinf(a.v); }
-inline bool isfinite(MF8 a) { return std::isfinite(a.v); }
-inline std::ostream& operator<<(std::ostream& os, MF8 a) { return os << a.v; }
-inline MF8 decode(unsigned code) {
-  bool neg = (code >> 7) & 1;
-  unsigned e = (code >> 3) & 15, m = code & 7;
-  double mag;
-  if (e == 15) mag = m == 0 ? std::numeric_limits<double>::infinity() : std::numeric_limits<double>::quiet_NaN();
-  else if (e == 0) mag = std::ldexp((double)m, -9);
-  else mag = std::ldexp((double)(8 + m), (int)e - 10);
-  return MF8(neg ? -mag : mag, MF8::Raw{});
-}
-inline bool finiteCode(unsigned c) { return c < 256 && ((c >> 3) & 15) != 15; }
+using MF8 = MFx<4, 3>;
+using MF8B = MFx<5, 2>;
+inline MF8 decode(unsigned code) { return MF8(F<4, 3>::value(code), MF8::Raw{}); }
+inline bool finiteCode(unsigned c) { return F<4, 3>::finiteCode(c); }
 }  // namespace mf
 namespace std {
-template <> struct numeric_limits<mf::MF8> {
+template <int EB, int MB> struct numeric_limits<mf::MFx<EB, MB>> {
+  using M = mf::MFx<EB, MB>;
+  using Fm = mf::F<EB, MB>;
   static constexpr bool is_specialized = true, is_signed = true, is_integer = false, is_exact = false, has_infinity = true,
                         has_quiet_NaN = true, has_signaling_NaN = false, is_iec559 = false, is_bounded = true, is_modulo = false,
                         traps = false, tinyness_before = false, has_denorm_loss = false;
   static constexpr float_denorm_style has_denorm = denorm_present;
   static constexpr float_round_style round_style = round_to_nearest;
-  static constexpr int digits = 4, digits10 = 0, max_digits10 = 3, radix = 2, min_exponent = -5, min_exponent10 = -1, max_exponent = 8,
-                       max_exponent10 = 2;
-  static constexpr mf::MF8 min() { return mf::MF8(0.015625, mf::MF8::Raw{}); }        // 2^-6
-  static constexpr mf::MF8 max() { return mf::MF8(240.0, mf::MF8::Raw{}); }
-  static constexpr mf::MF8 lowest() { return mf::MF8(-240.0, mf::MF8::Raw{}); }
-  static constexpr mf::MF8 epsilon() { return mf::MF8(0.125, mf::MF8::Raw{}); }       // 2^-3
-  static constexpr mf::MF8 round_error() { return mf::MF8(0.5, mf::MF8::Raw{}); }
-  static constexpr mf::MF8 denorm_min() { return mf::MF8(0.001953125, mf::MF8::Raw{}); }  // 2^-9
-  static mf::MF8 infinity() { return mf::MF8(numeric_limits<double>::infinity(), mf::MF8::Raw{}); }
-  static mf::MF8 quiet_NaN() { return mf::MF8(numeric_limits<double>::quiet_NaN(), mf::MF8::Raw{}); }
-  static mf::MF8 signaling_NaN() { return quiet_NaN(); }
+  static constexpr int digits = MB + 1, digits10 = 0, max_digits10 = 3, radix = 2, min_exponent = Fm::emin + 1, min_exponent10 = -1,
+                       max_exponent = Fm::emax + 1, max_exponent10 = 2;
+  static M min() { return M(std::ldexp(1.0, Fm::emin), typename M::Raw{}); }
+  static M max() { return M(Fm::maxv(), typename M::Raw{}); }
+  static M lowest() { return M(-Fm::maxv(), typename M::Raw{}); }
+  static M epsilon() { return M(std::ldexp(1.0, -MB), typename M::Raw{}); }
+  static M round_error() { return M(0.5, typename M::Raw{}); }
+  static M denorm_min() { return M(std::ldexp(1.0, Fm::emin - MB), typename M::Raw{}); }
+  static M infinity() { return M(numeric_limits<double>::infinity(), typename M::Raw{}); }
+  static M quiet_NaN() { return M(numeric_limits<double>::quiet_NaN(), typename M::Raw{}); }
+  static M signaling_NaN() { return quiet_NaN(); }
 };
 }  // namespace std
 
@@ -452,21 +469,29 @@ static std::string roundLaws(int style, int rstyle, const mpq_class& x, const mp
   if (r != expect) return tie ? "tie within epsilon not resolved in the documented direction" : "result is not the nearest integer";
   return "";
 }
-static std::string truncLaws(int style, int rstyle, bool uns, const mpq_class& x, const mpq_class& eps, const mpz_class& r) {
+// `unrep` is set when the documented result is the integer -1 and the target type is unsigned (argument in (-1,0) that
+// is truncated downward, or upward while equal to -1 within epsilon): nothing is required then.  Otherwise the laws
+// hold for unsigned targets as they stand: an argument in (-1,0) truncated upward must give 0 = floor+1, the only
+// value of I within distance 1 (`r` arrives here as -1 when the code returned the largest value of I, see resultZ)
+static std::string truncLaws(int style, int rstyle, bool uns, const mpq_class& x, const mpq_class& eps, const mpz_class& r, bool& unrep) {
   mpz_class l = floorQ(x);
+  unrep = false;
   if (uns && eqDoc(style, x, 0, eps))  // unsigned target: an argument equal to 0 within epsilon gives 0
     return r == 0 ? "" : "unsigned target: argument equal to 0 within epsilon did not give 0";
   int dir = rstyle;
   if (rstyle == 0) dir = x > 0 ? 2 : 3;
   if (rstyle == 1) dir = x > 0 ? 3 : 2;
+  bool eqL = eqDoc(style, mpq_class(l), x, eps), eqU = eqDoc(style, mpq_class(l + 1), x, eps);
+  if (uns && l < 0 && (dir == 2 || eqL)) { unrep = true; return ""; }
   if (r != l && r != l + 1) return "result is neither floor nor floor+1 of the argument";
   if (mpq_class(l) == x) return r == l ? "" : "integer argument not returned unchanged";
-  bool eqL = eqDoc(style, mpq_class(l), x, eps), eqU = eqDoc(style, mpq_class(l + 1), x, eps);
   if (dir == 2) {
     if (r == l + 1 && !eqU) return "downward: result above the argument without being equal within epsilon";
     if (r == l && eqU) return "downward: argument equal to the next integer within epsilon, but not snapped to it";
   } else {
-    if (r == l && !eqL) return "upward: result below the argument without being equal within epsilon";
+    if (r == l && !eqL)
+      return uns && l < 0 ? "upward: unsigned target, argument in (-1,0): the result must be 0, got the largest value of the type (-1 wrapped around)"
+                          : "upward: result below the argument without being equal within epsilon";
     if (r == l + 1 && mpq_class(l) == x && !eqU) return "upward: integer argument moved away";
     if (r == l + 1 && eqL && !eqU) return "upward: argument equal to the integer below within epsilon, but not snapped to it";
   }
@@ -555,11 +580,16 @@ template <class T, class I> Result execRT(bool isRound, int style, int rstyle, c
   I r = callRTdyn<T, I>(isRound, style, rstyle, false, val, eps, ovl);
   res.impl = std::to_string(r);
   mpz_class R = resultZ<I>(r, X);
-  std::string l = isRound ? roundLaws(style, rstyle, X, E, R) : truncLaws(style, rstyle, !std::numeric_limits<I>::is_signed, X, E, R);
+  bool unrep = false;
+  std::string l = isRound ? roundLaws(style, rstyle, X, E, R) : truncLaws(style, rstyle, !std::numeric_limits<I>::is_signed, X, E, R, unrep);
   if (!l.empty()) res.oracle = "FAIL " + l;
   else if (!ovl.empty()) res.oracle = "FAIL " + ovl;
-  else if (R < 0 && !std::numeric_limits<I>::is_signed) res.oracle = "ok trivial";  // the nearest integer is -1: not a value of I
+  else if (unrep || (R < 0 && !std::numeric_limits<I>::is_signed)) res.oracle = "ok trivial";  // the documented integer is -1: not a value of I
   stat(std::string(isRound ? "round_" : "trunc_") + RSTYLES[rstyle]);
+  if (!std::numeric_limits<I>::is_signed && X < 0) {
+    stat(std::string(isRound ? "round" : "trunc") + "_unsigned_arg_in_(-1,0)");
+    if (res.oracle == "ok") stat(std::string(isRound ? "round" : "trunc") + "_unsigned_arg_in_(-1,0)_result_0_required");
+  }
   rtBranchStats(isRound, style, X, E);
   return res;
 }
@@ -776,17 +806,22 @@ template <class T> std::string froundLaws(int style, int rstyle, const mpq_class
   if (r != expect) return tie ? "tie within epsilon not resolved in the documented direction" : "result is not the nearest integer";
   return "";
 }
-template <class T> std::string ftruncLaws(int style, int rstyle, bool uns, const mpq_class& x, const mpq_class& eps, const mpz_class& r) {
+template <class T> std::string ftruncLaws(int style, int rstyle, bool uns, const mpq_class& x, const mpq_class& eps, const mpz_class& r, bool& unrep) {
   mpz_class l = floorQ(x);
+  unrep = false;
   if (uns) {
     int z = eqSlack<T>(style, x, 0, eps);
     if (z == 1) return r == 0 ? "" : "unsigned target: argument equal to 0 within epsilon did not give 0";
-    if (z < 0) return "";
+    if (z < 0) { unrep = true; return ""; }
   }
   // integer arguments (all values from 2^(digits-1) on) come back unchanged; for the others both neighbours are values of T
   if (mpq_class(l) == x) return r == l ? "" : "integer argument not returned unchanged";
-  if (r != l && r != l + 1) return "result is neither floor nor floor+1 of the argument";
   int eqL = eqSlack<T>(style, mpq_class(l), x, eps), eqU = eqSlack<T>(style, mpq_class(l + 1), x, eps);
+  if (uns && l < 0) {  // argument in (-1,0): unless the documented result is -1 (see truncLaws) it is 0
+    bool up = rstyle == 3 || rstyle == 0;
+    if (!up || eqL != 0) { unrep = true; return ""; }
+  }
+  if (r != l && r != l + 1) return "result is neither floor nor floor+1 of the argument";
   stat(eqU == 1 ? "ftrunc_branch_snap_up" : eqU < 0 || eqL < 0 ? "ftrunc_branch_open_rounding" : eqL == 1 ? "ftrunc_branch_near_below" : "ftrunc_branch_plain");
   int dir = rstyle;
   if (rstyle == 0) dir = x > 0 ? 2 : 3;
@@ -795,7 +830,9 @@ template <class T> std::string ftruncLaws(int style, int rstyle, bool uns, const
     if (r == l + 1 && eqU == 0) return "downward: result above the argument without being equal within epsilon";
     if (r == l && eqU == 1) return "downward: argument equal to the next integer within epsilon, but not snapped to it";
   } else {
-    if (r == l && eqL == 0) return "upward: result below the argument without being equal within epsilon";
+    if (r == l && eqL == 0)
+      return uns && l < 0 ? "upward: unsigned target, argument in (-1,0): the result must be 0, got the largest value of the type (-1 wrapped around)"
+                          : "upward: result below the argument without being equal within epsilon";
     if (r == l + 1 && mpq_class(l) == x && eqU == 0) return "upward: integer argument moved away";
     if (r == l + 1 && eqL == 1 && eqU == 0) return "upward: argument equal to the integer below within epsilon, but not snapped to it";
   }
@@ -809,8 +846,9 @@ template <class T, class I> Result execFRT(bool isRound, int style, int rstyle, 
   constexpr bool uns = !std::numeric_limits<I>::is_signed;
   mpq_class X = toQ(dv_);
   mpz_class tr = truncQ(X), hi = maxOfI<I>();
-  // I(val), lower-1 and upper+1 stay inside I; unsigned targets: trunc needs val >= 0, round val > -1
-  bool inRange = uns ? ((isRound ? X > -1 : X >= 0) && tr <= hi - 2) : (-(hi - 2) <= tr && tr <= hi - 2);
+  // I(val), lower-1 and upper+1 stay inside I; unsigned targets: val > -1 (for val in (-1,0) `lower--` wraps around to the
+  // largest value of I, which is well defined; I(val) is undefined from -1 on)
+  bool inRange = uns ? (X > -1 && tr <= hi - 2) : (-(hi - 2) <= tr && tr <= hi - 2);
   if (!inRange) return Result{"skip", "ok trivial"};
   T val = toT<T>(dv_);
   T eps = ea.dflt ? docDefaultEps<T>(style) : toT<T>(ea.d);
@@ -819,11 +857,16 @@ template <class T, class I> Result execFRT(bool isRound, int style, int rstyle, 
   I r = callRTdyn<T, I>(isRound, style, rstyle, ea.dflt, val, eps, ovl);
   res.impl = std::to_string(r);
   mpz_class R = resultZ<I>(r, X);
-  std::string l = isRound ? froundLaws<T>(style, rstyle, X, E, R) : ftruncLaws<T>(style, rstyle, uns, X, E, R);
+  bool unrep = false;
+  std::string l = isRound ? froundLaws<T>(style, rstyle, X, E, R) : ftruncLaws<T>(style, rstyle, uns, X, E, R, unrep);
   if (!l.empty()) res.oracle = "FAIL " + l;
   else if (!ovl.empty()) res.oracle = "FAIL " + ovl;
-  else if (R < 0 && uns) res.oracle = "ok trivial";
+  else if (unrep || (R < 0 && uns)) res.oracle = "ok trivial";
   stat(std::string(isRound ? "fround_" : "ftrunc_") + RSTYLES[rstyle]);
+  if (uns && X < 0) {
+    stat(std::string(isRound ? "fround" : "ftrunc") + "_unsigned_arg_in_(-1,0)");
+    if (res.oracle == "ok") stat(std::string(isRound ? "fround" : "ftrunc") + "_unsigned_arg_in_(-1,0)_result_0_required");
+  }
   if (ea.dflt) stat("frt_default_eps");
   if (abs(X) + 2 >= pow2q(std::numeric_limits<T>::digits)) stat("frt_beyond_exact_integers");
   if (mpq_class(floorQ(X)) == X && eqSlack<T>(style, X + 1, X, E) == 1) stat("frt_integer_with_equal_successor");
@@ -914,16 +957,23 @@ static Result execMfRow(int style, unsigned ca, const MfEps& me) {
   return res;
 }
 
-// documented behaviour of round / trunc evaluated in the arithmetic of the format (|v| < 16: below that every integer
-// neighbour converts exactly; from 16 on every value of the format is an integer)
-static std::string mfRoundDoc(int style, int rstyle, double v, double eps, int r) {
-  if (std::fabs(v) >= 16) return r == v ? "" : "integer argument not returned unchanged";
-  if (!(std::fabs(r - v) < 1)) return "result is not within distance 1 of the argument";
+// the documented definition in the arithmetic of the format F (one rounding per operation)
+template <class Fm> bool mfEqDocF(int style, double a, double b, double eps) {
+  double d = Fm::rnd(std::fabs(a - b));
+  double aa = std::fabs(a), ab = std::fabs(b);
+  double tol = style == 2 ? eps : Fm::rnd(eps * (style == 0 ? std::max(aa, ab) : std::min(aa, ab)));
+  return d <= tol;
+}
+// documented behaviour of round / trunc evaluated in the arithmetic of the format: below 2^MB every integer neighbour
+// converts exactly; from 2^MB on every value of the format is an integer.  `r` is the result as a mathematical integer
+// (-1 for the largest value of an unsigned target when the argument is negative, see resultZ)
+template <class Fm> std::string mfRoundDocF(int style, int rstyle, double v, double eps, double r) {
   double l = std::floor(v);
   if (l == v) return r == v ? "" : "integer argument not returned unchanged";
-  if (mfEqDoc(style, std::trunc(v), v, eps)) return "";  // equal to its integer part within epsilon
-  double pp = mf::rnd(v - l), qq = mf::rnd((l + 1) - v);
-  bool tie = mfEqDoc(style, pp, qq, eps);
+  if (!(std::fabs(r - v) < 1)) return "result is not within distance 1 of the argument";
+  if (mfEqDocF<Fm>(style, std::trunc(v), v, eps)) return "";  // equal to its integer part within epsilon
+  double pp = Fm::rnd(v - l), qq = Fm::rnd((l + 1) - v);
+  bool tie = mfEqDocF<Fm>(style, pp, qq, eps);
   int dir = rstyle;
   if (rstyle == 0) dir = v > 0 ? 2 : 3;
   if (rstyle == 1) dir = v > 0 ? 3 : 2;
@@ -931,42 +981,67 @@ static std::string mfRoundDoc(int style, int rstyle, double v, double eps, int r
   if (r != expect) return tie ? "tie within epsilon not resolved in the documented direction" : "result is not the nearest integer";
   return "";
 }
-static std::string mfTruncDoc(int style, int rstyle, double v, double eps, int t) {
+// uns: unsigned target.  unrep: the documented result is -1 (see truncLaws), or the largest value M of the target type is
+// not a finite number of the format (mFinite = false: the code's T(M) is infinite; 240 < 255 in the format <4,3>) —
+// nothing is required then
+template <class Fm> std::string mfTruncDocF(int style, int rstyle, bool uns, bool mFinite, double v, double eps, double t, bool& unrep) {
   double l = std::floor(v);
-  if (!(t == l || t == l + 1)) return "result is neither floor nor floor+1 of the argument";
-  if (l == v) return t == v ? "" : "integer argument not returned unchanged";  // includes every |v| >= 16
-  bool eqL = mfEqDoc(style, l, v, eps), eqU = mfEqDoc(style, l + 1, v, eps);
+  unrep = false;
+  if (uns && mfEqDocF<Fm>(style, v, 0, eps)) return t == 0 ? "" : "unsigned target: argument equal to 0 within epsilon did not give 0";
+  bool eqL = mfEqDocF<Fm>(style, l, v, eps), eqU = mfEqDocF<Fm>(style, l + 1, v, eps);
   int dir = rstyle;
   if (rstyle == 0) dir = v > 0 ? 2 : 3;
   if (rstyle == 1) dir = v > 0 ? 3 : 2;
+  if (uns && l < 0 && (dir == 2 || eqL || !mFinite)) { unrep = true; return ""; }
+  if (!(t == l || t == l + 1)) return "result is neither floor nor floor+1 of the argument";
+  if (l == v) return t == v ? "" : "integer argument not returned unchanged";  // includes every |v| >= 2^MB
   if (dir == 2) {
     if (t == l + 1 && !eqU) return "downward: result above the argument without being equal within epsilon";
     if (t == l && eqU) return "downward: argument equal to the next integer within epsilon, but not snapped to it";
   } else {
-    if (t == l && !eqL) return "upward: result below the argument without being equal within epsilon";
+    if (t == l && !eqL)
+      return uns && l < 0 ? "upward: unsigned target, argument in (-1,0): the result must be 0, got the largest value of the type (-1 wrapped around)"
+                          : "upward: result below the argument without being equal within epsilon";
     if (t == l + 1 && l == v && !eqU) return "upward: integer argument moved away";
-    if (t == l + 1 && eqL && !eqU) return "upward: argument equal to the integer below within epsilon, but not snapped to it";
+    if (t == l + 1 && eqL && !eqU && !(uns && l < 0)) return "upward: argument equal to the integer below within epsilon, but not snapped to it";
   }
   return "";
 }
-static Result execMfr(int style, int rstyle, unsigned cv, const MfEps& me) {
+// round and trunc of the minifloat value `v` to the integer type I
+template <class M, class I> Result execMfrT(int style, int rstyle, bool dflt, M v, M eps) {
+  using Fm = typename M::Fm;
   Result res;
-  using mf::MF8;
-  MF8 v = mf::decode(cv), eps = me.dflt ? MF8(mfDocDefaultEps(style), MF8::Raw{}) : mf::decode(me.code);
+  constexpr bool uns = !std::numeric_limits<I>::is_signed;
+  const double hi = (double)std::numeric_limits<I>::max();
+  // I(val), lower-1 and upper+1 stay inside I (2^63 - 2 etc. are far above every value of the formats); unsigned: val > -1
+  double tr = std::trunc(v.v);
+  bool inRange = uns ? (v.v > -1 && tr <= hi - 2) : (-(hi - 2) <= tr && tr <= hi - 2);
+  if (!inRange) return Result{"skip", "ok trivial"};
   std::string ovl;
-  int r = callRTdyn<MF8, int>(true, style, rstyle, me.dflt, v, eps, ovl);
-  int t = callRTdyn<MF8, int>(false, style, rstyle, me.dflt, v, eps, ovl);
+  I r = callRTdyn<M, I>(true, style, rstyle, dflt, v, eps, ovl);
+  I t = callRTdyn<M, I>(false, style, rstyle, dflt, v, eps, ovl);
   res.impl = "round=" + std::to_string(r) + " trunc=" + std::to_string(t);
-  std::string l = mfRoundDoc(style, rstyle, v.v, eps.v, r);
+  auto asZ = [&](I x) { return uns && v.v < 0 && x == std::numeric_limits<I>::max() ? -1.0 : (double)x; };
+  bool unrep = false;
+  std::string l = mfRoundDocF<Fm>(style, rstyle, v.v, eps.v, asZ(r));
   if (l.empty()) {
-    l = mfTruncDoc(style, rstyle, v.v, eps.v, t);
+    l = mfTruncDocF<Fm>(style, rstyle, uns, std::isfinite(M(std::numeric_limits<I>::max()).v), v.v, eps.v, asZ(t), unrep);
     if (!l.empty()) l = "trunc: " + l;
   } else l = "round: " + l;
   if (!l.empty()) res.oracle = "FAIL " + l;
   else if (!ovl.empty()) res.oracle = "FAIL " + ovl;
+  else if (unrep && asZ(r) < 0) res.oracle = "ok trivial";   // neither result is decided
+  if (uns && v.v < 0) {
+    stat("mfr_unsigned_arg_in_(-1,0)");
+    if (!unrep) stat("mfr_unsigned_arg_in_(-1,0)_trunc_result_0_required");
+  }
   return res;
 }
-
+static Result execMfr(int style, int rstyle, unsigned cv, const MfEps& me) {
+  using mf::MF8;
+  MF8 v = mf::decode(cv), eps = me.dflt ? MF8(mfDocDefaultEps(style), MF8::Raw{}) : mf::decode(me.code);
+  return execMfrT<MF8, int>(style, rstyle, me.dflt, v, eps);
+}
 template <class T> Result execDefEps(int style) {
   Result res;
   T v = 0;
@@ -1135,6 +1210,22 @@ template <class F> auto withIType(const std::string& t, F&& f) {
   return f((unsigned long)0);
 }
 static bool isIType(const std::string& t) { return t == "i32" || t == "i64" || t == "u32" || t == "u64"; }
+// integer target types of round / trunc: the narrow ones as well (integral promotion in `lower+1`, conversion back on return)
+template <class F> auto withRTType(const std::string& t, F&& f) {
+  if (t == "i8") return f((signed char)0);
+  if (t == "u8") return f((unsigned char)0);
+  if (t == "i16") return f((short)0);
+  if (t == "u16") return f((unsigned short)0);
+  return withIType(t, f);
+}
+static bool isRTType(const std::string& t) { return isIType(t) || t == "i8" || t == "u8" || t == "i16" || t == "u16"; }
+static int rtBits(const std::string& t) { return std::atoi(t.c_str() + 1); }
+// mfri <fmt> <I> ...: format e4m3 (the one of mf/mfr/mfrow) or e5m2, any integer target type; epsilon: a code (no `def` for e5m2)
+template <class M> Result execMfri(const std::string& it, int style, int rstyle, unsigned cv, bool dflt, M eps) {
+  using Fm = typename M::Fm;
+  M v(Fm::value(cv), typename M::Raw{});
+  return withRTType(it, [&](auto I0) { return execMfrT<M, decltype(I0)>(style, rstyle, dflt, v, eps); });
+}
 
 // ------------------------------------------------------------------------------------------------
 // classifiers
@@ -1238,13 +1329,19 @@ Result exec(const std::string& line) {
   if ((op == "round" || op == "trunc") && w.size() == 7) {
     int st = styleIdx(w[3]), rs = rstyleIdx(w[4]);
     Dy v = parseDy(w[5]), e = parseDy(w[6]);
-    if (!parseFT(w[1], ft) || !isIType(w[2]) || st < 0 || rs < 0 || !v.ok || !e.ok) return bad();
+    if (!parseFT(w[1], ft) || !isRTType(w[2]) || st < 0 || rs < 0 || !v.ok || !e.ok) return bad();
     if (!(okVal(ft, v) && okEps(ft, e))) return skip();
     bool uns = w[2][0] == 'u';
     bool isRound = op == "round";
-    if (uns && v.m < 0 && !(isRound && toQ(v) > -1)) return skip();  // unsigned targets: trunc needs val >= 0, round val > -1
+    {  // I(val), lower-1 and upper+1 stay inside I.  Unsigned targets: val > -1; for val in (-1,0) trunc computes T(M) - val with
+       // M = 2^bits - 1, which is exact in T (the premise of these ops) only if bits + exponent window <= precision
+      mpz_class tr = truncQ(toQ(v)), hi = (mpz_class(1) << (rtBits(w[2]) - (uns ? 0 : 1))) - 1;
+      bool in = uns ? tr <= hi - 2 && (v.m >= 0 || (toQ(v) > -1 && (isRound || rtBits(w[2]) + ft.ew <= ft.prec)))
+                    : (-(hi - 2) <= tr && tr <= hi - 2);
+      if (!in) return skip();
+    }
     stat("rt_" + w[2]);
-    return withIType(w[2], [&](auto I0) {
+    return withRTType(w[2], [&](auto I0) {
       using I = decltype(I0);
       return w[1] == "f32" ? execRT<float, I>(isRound, st, rs, v, e) : execRT<double, I>(isRound, st, rs, v, e);
     });
@@ -1283,6 +1380,27 @@ Result exec(const std::string& line) {
     if (e.dflt) stat("mf_default_eps");
     return execMfr(st, rs, v, e);
   }
+  if (op == "mfri" && w.size() == 7) {
+    int st = styleIdx(w[3]), rs = rstyleIdx(w[4]);
+    unsigned v;
+    if (!isRTType(w[2]) || st < 0 || rs < 0 || !parseU(w[5], v)) return bad();
+    stat("mfri_" + w[1] + "_" + w[2]);
+    if (w[1] == "e4m3") {
+      MfEps e = parseMfEps(w[6]);
+      if (!e.ok) return bad();
+      if (!mf::finiteCode(v) || e.skip) return skip();
+      using mf::MF8;
+      return execMfri<MF8>(w[2], st, rs, v, e.dflt, e.dflt ? MF8(mfDocDefaultEps(st), MF8::Raw{}) : mf::decode(e.code));
+    }
+    if (w[1] == "e5m2") {
+      using Fb = mf::F<5, 2>;
+      unsigned ec;
+      if (!parseU(w[6], ec)) return bad();
+      if (!Fb::finiteCode(v) || !Fb::finiteCode(ec) || ec >= 128) return skip();
+      return execMfri<mf::MF8B>(w[2], st, rs, v, false, mf::MF8B(Fb::value(ec), mf::MF8B::Raw{}));
+    }
+    return bad();
+  }
   if ((op == "fcmp") && w.size() == 6) {
     int st = styleIdx(w[2]);
     Dy a = parseDy(w[3]), b = parseDy(w[4]);
@@ -1308,12 +1426,12 @@ Result exec(const std::string& line) {
     int st = styleIdx(w[3]), rs = rstyleIdx(w[4]);
     Dy v = parseDy(w[5]);
     EpsArg e = parseEps(w[6]);
-    if (!isIType(w[2]) || st < 0 || rs < 0 || !v.ok || !e.ok) return bad();
+    if (!isRTType(w[2]) || st < 0 || rs < 0 || !v.ok || !e.ok) return bad();
     if (w[1] != "f32" && w[1] != "f64" && w[1] != "f80") return bad();
     bool isRound = op == "fround";
     stat("frt_" + w[2]);
     stat("ftype_" + w[1]);
-    return withIType(w[2], [&](auto I0) {
+    return withRTType(w[2], [&](auto I0) {
       using I = decltype(I0);
       if (w[1] == "f32") return execFRT<float, I>(isRound, st, rs, v, e);
       if (w[1] == "f64") return execFRT<double, I>(isRound, st, rs, v, e);
@@ -1566,8 +1684,9 @@ static std::string genInt(Rng& r) {
 
 static std::string genRT(Rng& r) {
   bool f32 = r.coin(1, 3);
-  static const std::vector<std::string> IT = {"i32", "i64", "u32", "u64", "i32", "i64"};
+  static const std::vector<std::string> IT = {"i32", "i64", "u32", "u64", "i32", "i64", "i8", "u8", "i16", "u16", "u8", "u16"};
   std::string it = r.pick(IT);
+  const int ibits = rtBits(it);
   int st = (int)r.below(3), rs = (int)r.below(4);
   GD eps;
   switch (r.below(8)) {
@@ -1579,6 +1698,7 @@ static std::string genRT(Rng& r) {
   }
   long nb = f32 ? 4 : 11;
   long n = r.coin(2, 3) ? (long)r.range(-6, 6) : (long)r.range(-(1l << nb), (1l << nb));
+  if (ibits == 8) n %= 120;
   long j = (long)r.range(1, f32 ? 6 : 12);
   GD f;
   GD half{1, -1}, tiny{1, -j};
@@ -1601,7 +1721,10 @@ static std::string genRT(Rng& r) {
   GD val = gAdd(GD{n, 0}, f);
   bool isRoundOp = r.coin();
   if (it[0] == 'u' && val.m < 0) {
-    if (isRoundOp && r.coin(1, 3)) val = GD{-f.m, f.e};   // round on unsigned targets: arguments in (-1,0]
+    // unsigned targets: arguments in (-1,0] (`lower--` wraps around); trunc compares T(2^bits - 1) with val: exact in T
+    // only for narrow targets (see exec), the wide ones are covered by ftrunc
+    bool negOk = isRoundOp || ibits + (f32 ? 11 : 26) <= (f32 ? 24 : 53);
+    if (negOk && r.coin()) val = GD{-f.m, f.e};
     else val.m = -val.m;
   }
   FT ft; parseFT(f32 ? "f32" : "f64", ft);
@@ -1734,10 +1857,11 @@ template <class T> std::string genFCmpT(Rng& r, bool vec) {
   return os.str();
 }
 template <class T> std::string genFRTT(Rng& r) {
-  static const std::vector<std::string> IT = {"i32", "i64", "u32", "u64", "i32", "i64"};
+  static const std::vector<std::string> IT = {"i32", "i64", "u32", "u64", "i32", "i64", "u32", "u64", "i8", "u8", "i16", "u16"};
   const int p = std::numeric_limits<T>::digits;
   std::string it = r.pick(IT);
-  bool uns = it[0] == 'u', w32 = it[1] == '3';
+  bool uns = it[0] == 'u';
+  const int vb = rtBits(it) - (uns ? 0 : 1);   // value bits of the target type
   int st = (int)r.below(3), rs = (int)r.below(4);
   bool isRound = r.coin();
   bool dflt;
@@ -1748,11 +1872,11 @@ template <class T> std::string genFRTT(Rng& r) {
   switch (r.below(8)) {
     case 0: n = T(0); break;
     case 1: {  // where the integers stop being values of T, or the end of the target type
-      int top = std::min(p, w32 ? 31 : 63) - (int)r.below(3);
+      int top = std::min(p, vb) - (int)r.below(3);
       n = std::ldexp(T(1), top) - (T)(long)r.range(0, 6);
       break;
     }
-    case 2: n = std::ldexp(T(1), (int)r.range(3, std::min(p, w32 ? 30 : 62))) + (T)(long)r.range(-2, 2); break;
+    case 2: n = std::ldexp(T(1), (int)r.range(3, std::min(p, vb - 1))) + (T)(long)r.range(-2, 2); break;
     default: n = (T)(long)r.range(0, 40); break;
   }
   if (!uns && r.coin()) n = -n;
@@ -1778,7 +1902,7 @@ template <class T> std::string genFRTT(Rng& r) {
   if (!(f >= T(0) && f < T(1))) f = T(0.5);
   T val = nudge(fixFinite(n + f), r.coin(1, 2) ? r.range(-3, 3) : 0);
   if (uns && val < T(0)) val = -val;
-  if (uns && isRound && r.coin(1, 6)) val = -f;   // round on unsigned targets is exercised on (-1,0] as well
+  if (uns && r.coin(1, 4)) val = r.coin() ? -f : nudge(-f, r.range(-2, 2));   // unsigned targets: (-1,0], where `lower--` wraps around
   std::ostringstream os;
   os << (isRound ? "fround " : "ftrunc ") << FTr<T>::name << " " << it << " " << STYLES[st] << " " << RSTYLES[rs] << " " << dyStr<T>(fixFinite(val)) << " "
      << epsTok(eps, dflt);
@@ -1842,6 +1966,35 @@ static std::string genCls(Rng& r) {
 }
 
 static int mfFiniteCode(long i) { return (int)(i < 120 ? i : i + 8); }  // i in [0,240): the finite codes in order
+
+// exhaustive round/trunc tables of the two minifloat formats with integer target types other than int:
+// every (format, I, value in the range of I) x style x rounding style x epsilon.  Index: style/rstyle fastest, then
+// (format, I, value), then epsilon — a contiguous slice covers every type and value for a few epsilons.
+struct MfriTab {
+  std::vector<std::string> head;  // "e5m2 u8" per entry
+  std::vector<int> code;
+  long nEps43 = 120, nEps52 = 124;
+};
+template <class Fm> static void mfriAdd(MfriTab& t, const std::string& fmt, const std::string& it) {
+  bool uns = it[0] == 'u';
+  double hi = std::ldexp(1.0, rtBits(it) - (uns ? 0 : 1)) - 1;
+  for (long i = 0; i < Fm::nFinite; ++i) {
+    int c = Fm::finiteIdx(i);
+    double v = Fm::value((unsigned)c), tr = std::trunc(v);
+    bool in = uns ? (v > -1 && tr <= hi - 2) : (-(hi - 2) <= tr && tr <= hi - 2);
+    if (in) { t.head.push_back(fmt + " " + it); t.code.push_back(c); }
+  }
+}
+static const MfriTab& mfriTab() {
+  static MfriTab t;
+  if (!t.head.empty()) return t;
+  mfriAdd<mf::F<5, 2>>(t, "e5m2", "u8");    // T(255) = 256 is finite: trunc on (-1,0) is decided by the oracle
+  mfriAdd<mf::F<5, 2>>(t, "e5m2", "i8");
+  mfriAdd<mf::F<4, 3>>(t, "e4m3", "u8");    // T(255) overflows to infinity: trunc on (-1,0) is compared with the model only
+  mfriAdd<mf::F<4, 3>>(t, "e4m3", "u32");
+  return t;
+}
+static long mfriTotal() { return 12l * (long)mfriTab().head.size() * 124; }
 
 static const std::vector<std::string>& intAll(const std::string& tier) {
   static std::vector<std::string> v;
@@ -1910,6 +2063,16 @@ std::string gen(Rng& r, long i, const Args& a) {
                   (int)((idx / 2880) % 120));
     return buf;
   }
+  if (kind == "mfriall") {
+    const MfriTab& t = mfriTab();
+    long P = (long)t.head.size();
+    long pi = (idx / 12) % P, ei = (idx / (12 * P)) % 124;
+    bool b52 = t.head[(size_t)pi][1] == '5';
+    if (!b52 && ei >= 120) ei -= 120;   // the format <4,3> has 120 epsilons: the last slots repeat the first ones
+    char buf[96];
+    std::snprintf(buf, sizeof buf, "mfri %s %s %s %d %d", t.head[(size_t)pi].c_str(), STYLES[idx % 3], RSTYLES[(idx / 3) % 4], t.code[(size_t)pi], (int)ei);
+    return buf;
+  }
   if (kind == "intall") {
     const auto& v = intAll(a.tier);
     return v[(size_t)idx % v.size()];
@@ -1927,6 +2090,15 @@ std::string gen(Rng& r, long i, const Args& a) {
     os << "mfr " << STYLES[r.below(3)] << " " << RSTYLES[r.below(4)] << " " << v << " " << mfEpsTok();
     return os.str();
   };
+  auto genMfri = [&]() {
+    const MfriTab& t = mfriTab();
+    size_t pi = (size_t)r.below(t.head.size());
+    bool b52 = t.head[pi][1] == '5';
+    std::ostringstream os;
+    os << "mfri " << t.head[pi] << " " << STYLES[r.below(3)] << " " << RSTYLES[r.below(4)] << " " << t.code[pi] << " "
+       << (b52 ? std::to_string((int)r.below(124)) : mfEpsTok());
+    return os.str();
+  };
   auto genMisc = [&]() {
     bool f32 = r.coin();
     std::ostringstream os;
@@ -1938,7 +2110,7 @@ std::string gen(Rng& r, long i, const Args& a) {
   };
   // focused streams (used by the search after a broken correspondence / obligation, and by the thorough tier)
   if (kind == "rt") {
-    switch (r.below(6)) { case 0: case 1: return genRT(r); case 2: return genMfr(); default: return genF(r, 2); }
+    switch (r.below(7)) { case 0: case 1: return genRT(r); case 2: return genMfr(); case 3: return genMfri(); default: return genF(r, 2); }
   }
   if (kind == "cmp") {
     switch (r.below(8)) { case 0: case 1: return genCmp(r, false); case 2: return genCmp(r, true); case 3: return genMf();
@@ -1954,7 +2126,8 @@ std::string gen(Rng& r, long i, const Args& a) {
     case 9: case 10: return genRT(r);
     case 11: case 12: case 13: case 14: return genF(r, 2);
     case 15: return genMf();
-    case 16: case 17: return genMfr();
+    case 16: return genMfr();
+    case 17: return r.coin() ? genMfr() : genMfri();
     case 18: return genCls(r);
     case 19: return genMisc();
     case 20: return genLaws(r);
@@ -1970,6 +2143,7 @@ int main(int argc, char** argv) {
   long total = -1;
   if (kind == "mfall") total = 3l * 240 * 120;
   if (kind == "mfrall") total = 3l * 4 * 240 * 120;
+  if (kind == "mfriall") total = mfriTotal();
   if (kind == "intall") total = (long)intAll(a.tier).size();
   if (total >= 0 && a.replay.empty()) {
     long want = a.cases <= 0 ? total - a.get("from", 0) : std::min(a.cases, total - a.get("from", 0));
